@@ -47,6 +47,21 @@ theorem wire_roundtrip (cfg : Cfg) (D : Bytes → Bytes) (Z : Bytes → Option B
     decodeAll cfg Z fuel (cfb8Dec E iv (cfb8Enc E iv (encodeAll cfg.threshold D ps))) = (ps, none) := by
   rw [cfb8_roundtrip]; exact stream_roundtrip cfg D Z ps hall fuel hf
 
+/-- Encryption switched on in mid-stream (the login flow): `ps1` written in the clear, then the writer enables
+    encryption and writes `ps2`; the reader reads `|ps1|` packets, enables encryption, and reads on.  All payloads
+    come back, whatever part of the ciphertext had already been pulled into the read buffer — because the
+    decrypting reader wraps the buffer, not the socket. -/
+theorem switch_roundtrip (cfg : Cfg) (D : Bytes → Bytes) (Z : Bytes → Option Bytes) (E : Bytes → Bytes) (iv : Bytes)
+    (ps1 ps2 : List Bytes) (h1 : ∀ p ∈ ps1, Fits cfg D Z p) (h2 : ∀ p ∈ ps2, Fits cfg D Z p)
+    (fuel : Nat) (hf : ps2.length < fuel) :
+    decodeSwitch cfg Z E iv ps1.length fuel
+        (encodeAll cfg.threshold D ps1 ++ cfb8Enc E iv (encodeAll cfg.threshold D ps2))
+      = (ps1 ++ ps2, none) := by
+  unfold decodeSwitch
+  rw [readPackets_encodeAll cfg D Z (by decide) ps1 _ h1]
+  simp only
+  rw [cfb8_roundtrip, stream_roundtrip cfg D Z ps2 h2 fuel hf]
+
 /-- `io.ReadFull` on a stream delivered in arbitrary chunks: same bytes, same remainder, and it fails
     exactly when the whole stream is too short. -/
 theorem chunking_invariant (n : Nat) (cs : Chunks) :
@@ -102,6 +117,14 @@ theorem eleven_empty_frames_ok :
     readPacket ⟨-1, true⟩ (fun _ => none) 20 0 (List.replicate 11 0 ++ [1, 7]) = .ok ([7], []) := by rfl
 
 /-! ### tie to the source (facts regenerated by tools/gofacts) -/
+
+open Gate.Gen.C01 in
+/-- `reader.EnableEncryption` builds the decrypting reader and installs it with `SetReader` (and nothing else:
+    in particular it creates no new buffered reader on the raw connection) -/
+theorem src_enable_encryption_shape :
+    readerEnableEncryptionCalls = ["codec.NewDecryptReader", "return", "r.Decoder.SetReader", "return"] ∧
+    writerEnableEncryptionCalls = ["codec.NewEncryptWriter", "return", "w.Encoder.SetWriter", "return"] := by
+  decide
 
 open Gate.Gen.C01 in
 /-- every `Read` issued by the decoder is an `io.ReadFull`: the decoder's reader is always wrapped in
